@@ -20,3 +20,4 @@ func verifPreview(ev string, fields ...interface{}) {}
 func verifGate(name string, a int, b int)           {}
 func verifItemIndex(item *Item) int                 { return 0 }
 func verifHead(lines []string, n int) []string      { return nil }
+func verifNthString(nth *[]Range) string            { return "" }
